@@ -11,6 +11,7 @@ package c16
 
 import (
 	"encoding/json"
+	"errors"
 	"fmt"
 	"sort"
 	"strings"
@@ -71,6 +72,7 @@ type Chain struct {
 	Check     []slotSpec `json:"check"`
 	Stat      []slotSpec `json:"stat"`
 	ExitPanic bool       `json:"exit_handler_panics"`
+	ExitErr   bool       `json:"exit_handler_returns_error"` // an exit handler that fails without panicking
 	Follow    int        `json:"follow_up_entries"`
 	Pre       int        `json:"earlier_blocked_entries"` // history before the entry under test
 }
@@ -343,6 +345,9 @@ func evaluate(c Chain) (out string, viol string) {
 		if c.ExitPanic {
 			e.WhenExit(func(*base.SentinelEntry, *base.EntryContext) error { panic("exit handler") })
 		}
+		if c.ExitErr {
+			e.WhenExit(func(*base.SentinelEntry, *base.EntryContext) error { return errors.New("exit handler failed") })
+		}
 		n := len(log)
 		e.Exit()
 		e.Exit() // idempotent
@@ -445,7 +450,7 @@ func run(c *props.Ctx) {
 					return
 				}
 				// the exit-handler / follow-up dimensions are spread deterministically over the chains
-				ch := Chain{Prep: p, Check: ck, Stat: st, ExitPanic: (idx/3)%2 == 0, Follow: idx % 3}
+				ch := Chain{Prep: p, Check: ck, Stat: st, ExitPanic: (idx/3)%3 == 0, ExitErr: (idx/3)%3 == 2, Follow: idx % 3}
 				out, v := evaluate(ch)
 				c.R.Evaluations++
 				c.R.Transitions++
